@@ -42,8 +42,8 @@ def check(run):
     for s in specs:
         p = copy.deepcopy(s)
         p.use_phf = True
-        up = shards.Unit("u_" + s.name.lower() + "_plain", c01.glue(s), meta={"enum_src": s.render()}, sig="plain," + s.signature(), head=strgen.CAPTURE_HEAD)
-        uq = shards.Unit("u_" + s.name.lower() + "_phf", c01.glue(p), meta={"enum_src": p.render()}, sig="phf," + s.signature(), head=strgen.CAPTURE_HEAD)
+        up = shards.Unit("u_" + s.name.lower() + "_plain", c01.glue(s), meta={"enum_src": s.render(), "bare_src": s.render_bare()}, sig="plain," + s.signature(), head=strgen.CAPTURE_HEAD)
+        uq = shards.Unit("u_" + s.name.lower() + "_phf", c01.glue(p), meta={"enum_src": p.render(), "bare_src": p.render_bare()}, sig="phf," + s.signature(), head=strgen.CAPTURE_HEAD)
         units += [up, uq]
         spec_by_unit[up.name] = s
         spec_by_unit[uq.name] = p
@@ -60,8 +60,8 @@ def check(run):
         s.crate_path = "renamed"
         p = copy.deepcopy(s)
         p.use_phf = True
-        up = shards.Unit("u_" + s.name.lower() + "_plain", c01.glue(s), meta={"enum_src": s.render()}, sig="renamed,plain," + s.signature(), head=strgen.CAPTURE_HEAD)
-        uq = shards.Unit("u_" + s.name.lower() + "_phf", c01.glue(p), meta={"enum_src": p.render()}, sig="renamed,phf," + s.signature(), head=strgen.CAPTURE_HEAD)
+        up = shards.Unit("u_" + s.name.lower() + "_plain", c01.glue(s), meta={"enum_src": s.render(), "bare_src": s.render_bare()}, sig="renamed,plain," + s.signature(), head=strgen.CAPTURE_HEAD)
+        uq = shards.Unit("u_" + s.name.lower() + "_phf", c01.glue(p), meta={"enum_src": p.render(), "bare_src": p.render_bare()}, sig="renamed,phf," + s.signature(), head=strgen.CAPTURE_HEAD)
         runits += [up, uq]
         spec_by_unit[up.name] = s
         spec_by_unit[uq.name] = p
@@ -73,7 +73,7 @@ def check(run):
         p = copy.deepcopy(s)
         p.use_phf = True
         for sp_, tag_ in ((s, "plain"), (p, "phf")):
-            u = shards.Unit("u_" + sp_.name.lower() + "_" + tag_, c01.glue(sp_), meta={"enum_src": sp_.render()}, sig="nostd-strum,%s,%s" % (tag_, s.signature()), head=strgen.CAPTURE_HEAD)
+            u = shards.Unit("u_" + sp_.name.lower() + "_" + tag_, c01.glue(sp_), meta={"enum_src": sp_.render(), "bare_src": sp_.render_bare()}, sig="nostd-strum,%s,%s" % (tag_, s.signature()), head=strgen.CAPTURE_HEAD)
             nunits.append(u)
             spec_by_unit[u.name] = sp_
     samples.update(standard_flow(run, nunits, deps["nostdphf"], vmon, profiles=("fast",), tag="c16n"))
